@@ -48,6 +48,7 @@ func checkC20(c *core.Ctx, r *core.Report) {
 	c20Stores(c, r)
 	c20AliasRoles(c, r)
 	c20AliasPairScope(c, r)
+	c20RecursiveResults(c, r)
 }
 
 // c20NotifyState: the notification row's last_sent_time / last_alert_state are read by shouldSendNotification as
@@ -984,7 +985,7 @@ func c20Window(c *core.Ctx, r *core.Report) {
 	if ifi, ok := core.LastIf(scanTest.Block()); ok && ifi.Cond == ssa.Value(scanTest) {
 		fb := scanTest.Block().Succs[1]
 		if ret, ok := fb.Instrs[len(fb.Instrs)-1].(*ssa.Return); ok && len(fb.Preds) == 1 {
-			if k, ok := ret.Results[0].(*ssa.Const); ok && k.Value != nil && k.Value.String() == "false" {
+			if k, ok := core.RetResult(ret, 0).(*ssa.Const); ok && k.Value != nil && k.Value.String() == "false" {
 				okFail = true
 			}
 		}
@@ -1068,7 +1069,7 @@ func c20Window(c *core.Ctx, r *core.Report) {
 		}
 		tb := b.Succs[0]
 		if ret, ok := tb.Instrs[len(tb.Instrs)-1].(*ssa.Return); ok && len(tb.Preds) == 1 {
-			if k, ok := ret.Results[0].(*ssa.Const); ok && k.Value != nil && k.Value.String() == "false" && b.Succs[1].Dominates(scan.Header) && len(b.Succs[1].Preds) == 1 {
+			if k, ok := core.RetResult(ret, 0).(*ssa.Const); ok && k.Value != nil && k.Value.String() == "false" && b.Succs[1].Dominates(scan.Header) && len(b.Succs[1].Preds) == 1 {
 				lenGuard = true
 			}
 		}
@@ -1083,7 +1084,7 @@ func c20Window(c *core.Ctx, r *core.Report) {
 		if site != nil && ret.Results[0] == ssa.Value(site) {
 			continue // the helper's answer: its own returns are judged
 		}
-		k, ok := ret.Results[0].(*ssa.Const)
+		k, ok := core.RetResult(ret, 0).(*ssa.Const)
 		if ok && k.Value != nil && k.Value.String() == "false" {
 			continue
 		}
@@ -1116,7 +1117,7 @@ func c20Window(c *core.Ctx, r *core.Report) {
 			if ifi, ok := core.LastIf(call.Block()); ok && ifi.Cond == ssa.Value(call) {
 				fb := call.Block().Succs[1]
 				if ret, ok := fb.Instrs[len(fb.Instrs)-1].(*ssa.Return); ok {
-					if k, ok := ret.Results[0].(*ssa.Const); ok && k.Value != nil && k.Value.String() == "false" {
+					if k, ok := core.RetResult(ret, 0).(*ssa.Const); ok && k.Value != nil && k.Value.String() == "false" {
 						okCur = true
 					}
 				}
@@ -1156,7 +1157,7 @@ func c20Notify(c *core.Ctx, r *core.Report) {
 	}
 	nTrue := 0
 	for _, ret := range core.Returns(fn) {
-		k, ok := ret.Results[0].(*ssa.Const)
+		k, ok := core.RetResult(ret, 0).(*ssa.Const)
 		if ok && k.Value != nil && k.Value.String() == "false" {
 			continue
 		}
@@ -1231,7 +1232,7 @@ func c20Notify(c *core.Ctx, r *core.Report) {
 			work = work[:len(work)-1]
 			if ret, isRet := x.Instrs[len(x.Instrs)-1].(*ssa.Return); isRet {
 				nRet++
-				if k, ok := ret.Results[0].(*ssa.Const); !ok || k.Value == nil || k.Value.String() != "false" {
+				if k, ok := core.RetResult(ret, 0).(*ssa.Const); !ok || k.Value == nil || k.Value.String() != "false" {
 					onlyFalse = false
 				}
 			}
@@ -1270,12 +1271,65 @@ func c20Notify(c *core.Ctx, r *core.Report) {
 		}
 	}
 	nSend := 0
+	sendObjs := objSet{}
 	for _, sname := range []string{"sendAlertEmail", "sendSlack", "sendWebhooks"} {
 		so := c.Obj(pkgAlertsH, sname)
+		for k := range objs(so) {
+			sendObjs[k] = true
+		}
 		for i, call := range callsTo(nf, so) {
 			nSend++
 			ok := answer != nil && core.BoolKnownAt(answer, call.Block()) == core.Yes
 			r.Check(ok, "GUARD", fmt.Sprintf("alertsHandler.NotifyAlertHandlerRequest:%s#%d-guarded-by-shouldSendNotification", sname, i+1), c.Pos(call.Pos()), "sent only where shouldSendNotification answered true", "a message is sent where shouldSendNotification is not known to have answered true")
+		}
+	}
+	// the delivery extracted into a helper of the package: its call is what shouldSendNotification guards, its
+	// sends count, and — the helper reporting "nobody was reached" as an error — the notifier may answer `sent`
+	// only on the edge where that error is nil (the answer is what resets the cool-down clock)
+	for _, ci := range core.CallsIn(nf) {
+		hcall, ok := ci.(*ssa.Call)
+		if !ok {
+			continue
+		}
+		h := hcall.Call.StaticCallee()
+		if h == nil || h.Blocks == nil || core.FnPkgPath(h) != core.FnPkgPath(nf) {
+			continue
+		}
+		inner := 0
+		for _, x := range core.CallsIn(h) {
+			if sendObjs.hasCallee(x) {
+				inner++
+			}
+		}
+		if inner == 0 {
+			continue
+		}
+		nSend += inner
+		okG := answer != nil && core.BoolKnownAt(answer, hcall.Block()) == core.Yes
+		r.Check(okG, "GUARD", fmt.Sprintf("alertsHandler.NotifyAlertHandlerRequest:%s-guarded-by-shouldSendNotification", h.Name()), c.Pos(hcall.Pos()), "the delivery helper is called only where shouldSendNotification answered true", "the delivery helper is called where shouldSendNotification is not known to have answered true")
+		errv, _ := errResultOf(hcall)
+		construct := fmt.Sprintf("alertsHandler.NotifyAlertHandlerRequest:sent-is-answered-only-where-%s-succeeded", h.Name())
+		if errv == nil {
+			r.Undecided("DEPENDS", construct, c.Pos(hcall.Pos()), "the delivery helper reports no error")
+			continue
+		}
+		var bad *ssa.Return
+		core.WalkForwardEdges(nf, hcall, func(in ssa.Instruction) bool {
+			if ret, ok := in.(*ssa.Return); ok && bad == nil {
+				if k, isK := core.RetResult(ret, 0).(*ssa.Const); !isK || k.Value == nil || k.Value.String() != "false" {
+					if core.NilnessAt(errv, ret.Block()) != core.Yes {
+						bad = ret
+					}
+				}
+			}
+			return true
+		}, func(from, to *ssa.BasicBlock) bool {
+			return core.NilnessAt(errv, to) != core.Yes // stay on the side where the delivery may have failed
+		})
+		if bad != nil {
+			r.Violation("DEPENDS", construct, c.Pos(bad.Pos()), "after the delivery helper reported an error (no recipient was reached) the notifier can still answer that the notification was sent: the caller stores last_sent_time / last_alert_state for a notification nobody received, the cool-down starts, the Firing notification is never delivered and a later back-to-Normal is announced for a Firing nobody saw")
+		} else {
+			r.OK("DEPENDS", construct, c.Pos(hcall.Pos()), "`sent` is answered only on the edge where the delivery helper's error is nil")
 		}
 	}
 	r.Floor("GUARD", "send call sites in the notifier", nSend, 3)
@@ -1286,7 +1340,7 @@ func c20Notify(c *core.Ctx, r *core.Report) {
 		construct := "alertsHandler." + pn + ":means-now−lastSent>=period"
 		okAll, n := true, 0
 		for _, ret := range core.Returns(pf) {
-			if k, ok := ret.Results[0].(*ssa.Const); ok {
+			if k, ok := core.RetResult(ret, 0).(*ssa.Const); ok {
 				// the only constant answer allowed: true when nothing was ever sent (IsZero)
 				isZeroGuard := false
 				for b := ret.Block(); b != nil && b.Idom() != nil; b = b.Idom() {
@@ -2011,13 +2065,36 @@ func c20SamePath(c *core.Ctx, r *core.Report) {
 		fn := c.Fn(pkgVtable, name)
 		var shape []string
 		found := false
+		// the file access is in the function itself or in a helper of the package it calls; the name is built
+		// with a strings.Builder there, or by a name-building helper of the package (whose builder is then read)
+		scan := []*ssa.Function{fn}
 		for _, ci := range core.CallsIn(fn) {
-			f := core.CalleeFunc(ci)
-			if f == nil || f.Pkg() == nil || f.Pkg().Path() != "os" {
-				continue
+			if h := ci.Common().StaticCallee(); h != nil && h.Blocks != nil && core.FnPkgPath(h) == core.FnPkgPath(fn) {
+				scan = append(scan, h)
 			}
-			if sh, ok := builderShape(c, fn, ci.Common().Args[0]); ok {
-				shape, found = sh, true
+		}
+		for _, g := range scan {
+			for _, ci := range core.CallsIn(g) {
+				f := core.CalleeFunc(ci)
+				if f == nil || f.Pkg() == nil || f.Pkg().Path() != "os" || found {
+					continue
+				}
+				arg := ci.Common().Args[0]
+				if sh, ok := builderShape(c, g, arg); ok {
+					shape, found = sh, true
+					continue
+				}
+				if hc, ok := arg.(*ssa.Call); ok {
+					if h := hc.Call.StaticCallee(); h != nil && h.Blocks != nil && core.FnPkgPath(h) == core.FnPkgPath(fn) {
+						for _, ret := range core.Returns(h) {
+							if len(ret.Results) == 1 {
+								if sh, ok := builderShape(c, h, ret.Results[0]); ok {
+									shape, found = sh, true
+								}
+							}
+						}
+					}
+				}
 			}
 		}
 		construct := "index-aliases:" + name + ":alias-file-name-agrees"
@@ -2413,4 +2490,64 @@ func localInnerKeyRole(mm *ssa.MakeMap, roleOf func(ssa.Value) int) int {
 		}
 	}
 	return 0
+}
+
+// c20RecursiveResults — clause (11).  The folder tree of the dashboards store is walked by recursive functions
+// (what is inside a folder: for its deletion, for its item counts).  When such a walker hands its findings back
+// as RESULTS, every recursive call's results must be used: a bare `walk(child)` collects the sub-folder's items
+// and throws them away, so deleting a folder leaves its sub-folders (and their dashboard files) behind as
+// orphans that are still listed and still load after a restart.  For every self-recursive function of the
+// dashboards package that returns values other than an error, each result of each recursive call has a use.
+func c20RecursiveResults(c *core.Ctx, r *core.Report) {
+	isErr := func(t types.Type) bool { return types.Identical(t, types.Universe.Lookup("error").Type()) }
+	for _, fn := range c.RepoFunctions() {
+		if core.FnPkgPath(fn) != core.ModPath+"/"+pkgDash || fn.Blocks == nil {
+			continue
+		}
+		res := fn.Signature.Results()
+		nVal := 0
+		for i := 0; i < res.Len(); i++ {
+			if !isErr(res.At(i).Type()) {
+				nVal++
+			}
+		}
+		if nVal == 0 {
+			continue
+		}
+		k := 0
+		for _, ci := range core.CallsIn(fn) {
+			call, ok := ci.(*ssa.Call)
+			if !ok || call.Call.StaticCallee() != fn {
+				continue
+			}
+			k++
+			used := map[int]bool{}
+			if refs := call.Referrers(); refs != nil {
+				for _, u := range *refs {
+					switch x := u.(type) {
+					case *ssa.DebugRef:
+					case *ssa.Extract:
+						if xr := x.Referrers(); xr != nil {
+							for _, xu := range *xr {
+								if _, dbg := xu.(*ssa.DebugRef); !dbg {
+									used[x.Index] = true
+								}
+							}
+						}
+					default:
+						used[0] = true
+					}
+				}
+			}
+			dropped := -1
+			for i := 0; i < res.Len(); i++ {
+				if !isErr(res.At(i).Type()) && !used[i] {
+					dropped = i
+				}
+			}
+			r.Check(dropped < 0, "DEPENDS", fmt.Sprintf("%s:recursive-call#%d-results-are-used", shortFn(fn), k), c.Pos(call.Pos()),
+				"what the walk of the sub-tree found is used by the caller",
+				"a recursive walk of the folder tree returns what it found in the sub-tree, and this call drops it: the items of sub-folders are never collected, so deleting a folder leaves its sub-folders and their dashboards behind (still listed, still on disk)")
+		}
+	}
 }
